@@ -222,7 +222,7 @@ pub fn run(ctx: &Ctx, rep: &mut Report) {
         }
     }
     // ---- (iii) random strings, (iv) mutation-fuzzed valid encodings
-    let nf = if ctx.thorough() { 60000 } else { 6000 };
+    let nf = if ctx.thorough() { 1500000 } else { 6000 };
     for f in 0..nf {
         id += 1;
         if !ctx.mine(id) {
